@@ -1817,6 +1817,10 @@ impl<'a> Gen<'a> {
             1 => Stmt::Load(Expr::Lv(LV::Deref(self.hw[0]))),
             2 => Stmt::Store(LV::Deref(wo)),
             3 => {
+                if self.rng.chance(1, 4) {
+                    // an asm statement that emits nothing, declared as such
+                    return Stmt::Asm("; nothing to see here".into(), Some(0));
+                }
                 self.asm_n += 1;
                 Stmt::Asm(format!("NOP ;@I{}", self.asm_n), Some(1))
             }
